@@ -1,6 +1,7 @@
 package main
 
 import (
+	"strings"
 	"fmt"
 	"go/ast"
 	"go/token"
@@ -64,6 +65,37 @@ func factsC14Entry() {
 			unrec(g, "routeUDPBufLen", err.Error())
 		} else {
 			emit(g, "routeUDPBufLen", "Int", fmt.Sprintf("%d", v), "RouteUDP: "+bufName+" := make([]byte, "+show(bufLen)+"); ... localConn.ReadFrom("+bufName+")")
+		}
+		// the way back: the goroutine of a stream reads it with `buf := make([]byte, N)` (inside the go func) and writes exactly
+		// what it read to the local socket
+		retLen := int64(-1)
+		retWrites := false
+		ast.Inspect(ru.Body, func(n ast.Node) bool {
+			fl, ok := n.(*ast.FuncLit)
+			if !ok {
+				return true
+			}
+			var name string
+			for _, st := range fl.Body.List {
+				if a, ok := st.(*ast.AssignStmt); ok && len(a.Lhs) == 1 && len(a.Rhs) == 1 {
+					if c, ok := a.Rhs[0].(*ast.CallExpr); ok && show(c.Fun) == "make" && len(c.Args) == 2 && show(c.Args[0]) == "[]byte" {
+						if v, err := pkgs[cl].evalConst(c.Args[1], 0); err == nil {
+							name, retLen = show(a.Lhs[0]), v
+						}
+					}
+				}
+			}
+			if name != "" {
+				body := show(fl.Body)
+				retWrites = strings.Contains(body, "stream.Read("+name+")") && strings.Contains(body, "localConn.WriteTo("+name+"[:n], proxyAddr)")
+			}
+			return false
+		})
+		if retLen < 0 {
+			unrec(g, "routeUDPReturnBufLen", "RouteUDP: the per-stream goroutine's `buf := make([]byte, N)` not found")
+		} else {
+			emit(g, "routeUDPReturnBufLen", "Int", fmt.Sprintf("%d", retLen), "RouteUDP: buffer the per-stream goroutine reads the stream with")
+			boolFact(g, "routeUDPReturnWritesWhatWasRead", retWrites, "RouteUDP: stream.Read(buf) then localConn.WriteTo(buf[:n], proxyAddr)")
 		}
 		// the datagram is read into the WHOLE buffer once per iteration and exactly what was read is written to the stream
 		var nName string
